@@ -38,3 +38,51 @@ V("c01-n-obsgen-ub-is-next-jd", "C01", "pass", edits=[(SC, "                prio
 V("c01-n-store-ub-and-reuse", "C01", "pass", edits=[(SC, "        self.current_julian_date = self.clock.julian_date_epoch\n", "        self.current_julian_date = next_jd\n")])
 V("c01-n-swap-comparison-sides", "C01", "pass", edits=[(EV, "event_alias.start_time_jd <= julian_date_ub", "julian_date_ub >= event_alias.start_time_jd")])
 V("c01-n-rename-local", "C01", "pass", edits=[(SC, "        next_jd = (self.clock.time", "        upper_jd = (self.clock.time"), (SC, "            prior_jd,\n            next_jd,\n            self.logger,", "            prior_jd,\n            upper_jd,\n            self.logger,"), (SC, "            prior_jd,\n            next_jd,\n        )", "            prior_jd,\n            upper_jd,\n        )")])
+
+# ------------------------------------------------------------------------------------ C08
+TE = "parallel/tasking_execution.py"
+V("c08-revert-F6-bookkeeping", "C08", "violation", "C08.R1", revert="310bbe3")
+V("c08-reset-in-merge", "C08", "violation", "C08.R1", edits=[(EB, "        for sensor_info in sensor_info_list:\n            self.sensor_changes[", "        self.sensor_changes = {}\n        for sensor_info in sensor_info_list:\n            self.sensor_changes[")])
+V("c08-observations-rebound-in-merge", "C08", "violation", "C08.R1", edits=[(EB, "        self._observations.extend(observations)\n", "        self._observations = list(observations)\n")])
+V("c08-n-squared-misses", "C08", "violation", "C08.R2", edits=[(EB, "        valid_misses = [miss for miss in missed_observations if miss]\n        self._missed_observations.extend(valid_misses)\n        self._saved_missed_observations.extend(valid_misses)\n", "        for miss in missed_observations:\n            if miss:\n                self._missed_observations.extend(missed_observations)\n                self._saved_missed_observations.extend(missed_observations)\n")])
+V("c08-double-extend", "C08", "violation", "C08.R2", edits=[(EB, "        self._saved_observations.extend(observations)\n", "        self._saved_observations.extend(observations)\n        self._saved_observations.extend(observations)\n")])
+V("c08-missed-not-reset", "C08", "violation", "C08.R3", edits=[(CE, "        self._missed_observations = []\n", "")])
+V("c08-sensor-changes-not-reset", "C08", "violation", "C08.R3", edits=[(CE, "        self.sensor_changes = {}\n", "")])
+V("c08-reset-after-merge", "C08", "violation", "C08.R3", edits=[(CE, "        self._observations = []\n", ""), (CE, "        # Load imported observations\n", "        self._observations = []\n        # Load imported observations\n")])
+V("c08-saved-not-drained", "C08", "violation", "C08.R3", edits=[(EB, "        observations = self._saved_observations\n        self._saved_observations = []\n", "        observations = self._saved_observations\n")])
+V("c08-apply-first-change-only", "C08", "violation", "C08.R4", edits=[(SC, "                    self.sensor_agents[sensor_change].updateInfo(\n                        tasking_engine.sensor_changes[sensor_change],\n                    )\n", "                    self.sensor_agents[sensor_change].updateInfo(\n                        tasking_engine.sensor_changes[sensor_change],\n                    )\n                    break\n")])
+V("c08-worker-swaps-pointing-slots", "C08", "violation", "C08.R4", edits=[(TE, '"boresight": boresight,\n                "time_last_tasked": time_last_tasked,', '"boresight": time_last_tasked,\n                "time_last_tasked": boresight,')])
+V("c08-obs-routed-by-sensor", "C08", "violation", "C08.R4", edits=[(SC, "obs_dict[observation.target_id].append(observation)", "obs_dict[observation.sensor_id].append(observation)")])
+V("c08-merge-misses-as-observations", "C08", "violation", "C08.R4", edits=[(TE, "self._registrant.saveMissedObservations(results.missed_observations)", "self._registrant.saveMissedObservations(results.observations)")])
+V("c08-reward-row-from-sensor-count", "C08", "violation", "C08.R1", edits=[("parallel/tasking_reward_generation.py", "row = self._registrant.target_list.index(results.estimate_id)", "row = len(results.visibility) - 1")])
+V("c08-n-extend-as-iadd", "C08", "pass", edits=[(EB, "        self._observations.extend(observations)\n", "        self._observations += observations\n")])
+V("c08-n-changes-via-update", "C08", "pass", edits=[(EB, "        for sensor_info in sensor_info_list:\n            self.sensor_changes[sensor_info[\"sensor_id\"]] = {\n                \"boresight\": sensor_info[\"boresight\"],\n                \"time_last_tasked\": sensor_info[\"time_last_tasked\"],\n            }\n", "        for sensor_info in sensor_info_list:\n            entry = {\n                \"boresight\": sensor_info[\"boresight\"],\n                \"time_last_tasked\": sensor_info[\"time_last_tasked\"],\n            }\n            self.sensor_changes[sensor_info[\"sensor_id\"]] = entry\n")])
+V("c08-n-items-loop", "C08", "pass", edits=[(SC, "                for sensor_change in tasking_engine.sensor_changes:\n                    self.sensor_agents[sensor_change].updateInfo(\n                        tasking_engine.sensor_changes[sensor_change],\n                    )\n", "                for sensor_change, change in tasking_engine.sensor_changes.items():\n                    self.sensor_agents[sensor_change].updateInfo(change)\n")])
+
+# ------------------------------------------------------------------------------------ C05
+SD = "physics/time/stardate.py"
+V("c05-revert-F3-truncation", "C05", "violation", "C05.R1", revert="c27d9fd")
+V("c05-rounded-into-datetime", "C05", "violation", "C05.R1", edits=[(SD, "    return datetime(int(year), int(month), int(day)) + timedelta(seconds=seconds_of_day)", "    return datetime(int(year), int(month), int(day), 0, 0, seconds_of_day)")])
+V("c05-no-rounding", "C05", "violation", "C05.R1", edits=[(SD, "    seconds_of_day = round(float(hour) * 3600 + float(minute) * 60 + float(second))", "    seconds_of_day = float(hour) * 3600 + float(minute) * 60 + float(second)")])
+V("c05-steps-rounded-up", "C05", "violation", "C05.R4", edits=[(SC, "            for _ in range(int(steps)):", "            for _ in range(round(steps)):")])
+V("c05-delta-not-rounded", "C05", "violation", "C05.R4", edits=[(SC, "        rounded_delta = around(target_scenario_time - self.clock.time)", "        rounded_delta = target_scenario_time - self.clock.time")])
+V("c05-steps-plus-one", "C05", "violation", "C05.R4", edits=[(SC, "            for _ in range(int(steps)):", "            for _ in range(int(steps) + 1):")])
+V("c05-reciprocal-edited", "C05", "violation", "C05.R3", edits=[(SD, "float(self * (1 / (24 * 3600)))", "float(self * (1 / (24 * 3500)))")])
+V("c05-target-fields-swapped", "C05", "violation", "C05.R2", edits=[("physics/time/conversions.py", "        target_calendar_date.hour,\n        target_calendar_date.minute,\n", "        target_calendar_date.minute,\n        target_calendar_date.hour,\n")])
+V("c05-near-miss-day", "C05", "violation", "C05.R3", edits=[("dynamics/special_perturbations.py", "self.init_julian_date + time / 86400", "self.init_julian_date + time / 86000")])
+V("c05-epoch-loop-excludes-last", "C05", "violation", "C05.R4", edits=[("scenario/clock.py", "while sim_time_iter <= self.time_span:", "while sim_time_iter < self.time_span:")])
+V("c05-microsecond-scale", "C05", "violation", "C05.R2", edits=[(SD, "date_time.second + date_time.microsecond / 1e6", "date_time.second + date_time.microsecond / 1e5")])
+V("c05-n-floor-division", "C05", "pass", edits=[(SC, "            steps = rounded_delta / self.physics_time_step\n", "            steps = rounded_delta // self.physics_time_step\n")])
+V("c05-n-round-seconds-then-timedelta", "C05", "pass", edits=[(SD, "    seconds_of_day = round(float(hour) * 3600 + float(minute) * 60 + float(second))\n    return datetime(int(year), int(month), int(day)) + timedelta(seconds=seconds_of_day)", "    return datetime(int(year), int(month), int(day), int(hour), int(minute)) + timedelta(seconds=round(second))")])
+V("c05-n-literal-86400", "C05", "pass", edits=[(SD, "float(self * (1 / (24 * 3600)))", "float(self * (1 / 86400))")])
+
+# ------------------------------------------------------------------------------------ C11
+TR = "dynamics/terrestrial.py"
+V("c11-revert-F3-truncation", "C11", "violation", "C11.R1", revert="c27d9fd")
+V("c11-propagate-uses-initial-time", "C11", "violation", "C11.R3", edits=[(TR, "timedelta(seconds=final_time)", "timedelta(seconds=final_time - initial_time)")])
+V("c11-propagate-minutes", "C11", "violation", "C11.R3", edits=[(TR, "timedelta(seconds=final_time)", "timedelta(minutes=final_time)")])
+V("c11-propagate-from-initial-state", "C11", "violation", "C11.R3", edits=[(TR, "return ecef2eci(self.x_ecef, final_datetime)", "return ecef2eci(initial_state, final_datetime)")])
+V("c11-capture-two-instants", "C11", "violation", "C11.R2", edits=[("dynamics/__init__.py", "eci2ecef(agent_cfg.state.toECI(clock.datetime_start), clock.datetime_start)", "eci2ecef(agent_cfg.state.toECI(clock.datetime_start), clock.datetime_epoch)")])
+V("c11-lla-lon-lat-swapped", "C11", "violation", "C11.R4", edits=[("scenario/config/state_config.py", "array([self.latitude * DEG2RAD, self.longitude * DEG2RAD, self.altitude])", "array([self.longitude * DEG2RAD, self.latitude * DEG2RAD, self.altitude])")])
+V("c11-lla-degrees-not-converted", "C11", "violation", "C11.R4", edits=[("scenario/config/state_config.py", "array([self.latitude * DEG2RAD, self.longitude * DEG2RAD, self.altitude])", "array([self.latitude * DEG2RAD, self.longitude, self.altitude])")])
+V("c11-n-inline-final-datetime", "C11", "pass", edits=[(TR, "        final_datetime = self.datetime_start + timedelta(seconds=final_time)\n        return ecef2eci(self.x_ecef, final_datetime)", "        return ecef2eci(self.x_ecef, self.datetime_start + timedelta(seconds=final_time))")])
